@@ -273,7 +273,9 @@ func c20Run(c c20Case) (err error, harness error) {
 			w.observer.streamGrowLock.Unlock()
 			return nil, fmt.Errorf("%s did not return within the real-time backstop", what)
 		}
-		if e != nil {
+		// (an LCM configuration that lacks a shard count is accepted at start-up; it cannot map any shard, so every
+		// stream is rejected with an error - which is all the statement asks for there)
+		if e != nil && !(c.Mode == "lcm" && (c.L == 0 || c.R == 0)) {
 			return fmt.Errorf("%s was not served: %v", what, e), nil
 		}
 		if e := w.bookkeeping(what); e != nil {
@@ -294,7 +296,7 @@ func c20Fail(t interface{ Fatalf(string, ...any) }, st *vfshared.Stats, part str
 	t.Fatalf("C20 violated: %v (replay %s)", err, p)
 }
 
-const c20Rule = "histories = 1-4 stream opens with arbitrary metadata (each of the four cluster/shard id keys: boundary integers incl. 238609294 = first value whose (idx+1)*9 overflows int32, random int32/int64, malformed strings, missing, duplicated) followed by 1-3 well-formed opens, in default / LCM / routing mode, through the real StreamWorkflowReplicationMessages handler wired to a real ReplicationStreamObserver; oracle after every open: handler returned (no escaped panic), observer lock free (TryLock), no active stream listed, nothing left registered; follow-ups are served without error; non-trivial = some shard id >= 1024 (growth path), < 0 or non-numeric, followed by a well-formed open; distinct = distinct histories"
+const c20Rule = "histories = 1-4 stream opens with arbitrary metadata (each of the four cluster/shard id keys: boundary integers incl. 238609294 = first value whose (idx+1)*9 overflows int32, random int32/int64, malformed strings, missing, duplicated) followed by 1-3 well-formed opens, in default / LCM / routing mode (LCM also with a shard count missing from the configuration, which start-up accepts: every open must then be rejected with an error, not crash), through the real StreamWorkflowReplicationMessages handler wired to a real ReplicationStreamObserver; oracle after every open: handler returned (no escaped panic), observer lock free (TryLock), no active stream listed, nothing left registered; follow-ups are served without error; non-trivial = some shard id >= 1024 (growth path), < 0 or non-numeric, followed by a well-formed open; distinct = distinct histories"
 
 func c20Nontrivial(c c20Case) bool {
 	if c.After == 0 {
@@ -345,7 +347,7 @@ func TestVF_C20_Boundary(t *testing.T) {
 	for _, mode := range []struct {
 		m    string
 		l, r int32
-	}{{"default", 4, 4}, {"lcm", 4, 6}, {"lcm", 1024, 1000}, {"routing", 4, 6}} {
+	}{{"default", 4, 4}, {"lcm", 4, 6}, {"lcm", 1024, 1000}, {"routing", 4, 6}, {"lcm", 0, 6}, {"lcm", 4, 0}} {
 		for key := 0; key < 4; key++ {
 			var vals []string
 			for _, b := range c20Boundary {
@@ -429,7 +431,7 @@ func TestVF_C20_Random(t *testing.T) {
 	)
 	rapid.Check(t, func(rt *rapid.T) {
 		c := c20Case{Mode: rapid.SampledFrom([]string{"default", "lcm", "routing"}).Draw(rt, "mode"),
-			L: rapid.SampledFrom([]int32{1, 4, 6, 512, 1024}).Draw(rt, "l"), R: rapid.SampledFrom([]int32{1, 3, 8, 1000, 16384}).Draw(rt, "r"),
+			L: rapid.SampledFrom([]int32{1, 4, 6, 512, 1024, 1, 4, 6, 512, 1024, 0}).Draw(rt, "l"), R: rapid.SampledFrom([]int32{1, 3, 8, 1000, 16384, 1, 3, 8, 1000, 16384, 0}).Draw(rt, "r"),
 			After: rapid.IntRange(1, 3).Draw(rt, "after")}
 		n := rapid.IntRange(1, 4).Draw(rt, "nopens")
 		for i := 0; i < n; i++ {
@@ -457,6 +459,9 @@ func TestVF_C20_Random(t *testing.T) {
 		}
 		if err != nil {
 			c20Fail(rt, st, part, c, err)
+		}
+		if c.Mode == "lcm" && (c.L == 0 || c.R == 0) {
+			st.Class("lcm_configuration_without_a_shard_count", 1)
 		}
 		st.Case(vfshared.Fingerprint(c), c20Nontrivial(c), "mode_"+c.Mode)
 		if c20Nontrivial(c) && st.WantSample() {
